@@ -14,7 +14,7 @@ import z3
 
 from symx import harness, load, stubs
 from symx.arrays import SymArray, to_symarray
-from symx.core import Sym, explore, lift, real, _real, _coerce
+from symx.core import Sym, explore, integer, lift, real, _real, _coerce
 from symx.fftstub import FFTStub
 
 from .common import TRUSTED, fl, frac, quick, select
@@ -27,8 +27,16 @@ def zr(x):
     return _real(lift(_coerce(x)))
 
 
-def _load(patches=None):
-    return load.load(MODS, patches=patches)
+def _load(patches=None, keep_cache=False):
+    return load.load(MODS, patches=patches, keep_cache=keep_cache)
+
+
+class IntImage(SymArray):
+    """a symbolic image that reports an integer dtype (int16 tomogram data): voxels are symbolic integers"""
+
+    @property
+    def dtype(self):
+        return np.dtype("int16")
 
 
 def fftfreq_int(n):
@@ -58,9 +66,11 @@ def _impls(L, fft):
     xp = stubs.make_backend(API, U.np, None, fft)
     return {
         "utils": dict(weight=lambda shape, c, o, r: U.nd_butterworth_weight(shape, c, o, r),
-                      lp=lambda img, c, o: U.lowpass_filter(img, c, o), lpft=lambda img, c, o: U.lowpass_filter_ft(img, c, o)),
+                      lp=lambda img, c, o: U.lowpass_filter(img, c, o), lpft=lambda img, c, o: U.lowpass_filter_ft(img, c, o),
+                      hp=lambda img, c, o: U.highpass_filter(img, c, o), hpft=lambda img, c, o: U.highpass_filter_ft(img, c, o)),
         "backend": dict(weight=lambda shape, c, o, r: BP.nd_butterworth_weight(shape, c, o, r, xp),
-                        lp=lambda img, c, o: xp.lowpass_filter(img, c, o), lpft=lambda img, c, o: xp.lowpass_filter_ft(img, c, o)),
+                        lp=lambda img, c, o: xp.lowpass_filter(img, c, o), lpft=lambda img, c, o: xp.lowpass_filter_ft(img, c, o),
+                        hp=lambda img, c, o: None, hpft=lambda img, c, o: None),  # the Backend class exposes no high-pass filter
     }
 
 
@@ -96,7 +106,16 @@ def replay_shape(shape, impl):
         from acryo.backend import Backend
 
         img = np.random.default_rng(0).normal(size=shape).astype(np.float32)
+        if cex.get("__int__"):
+            img = np.rint(img * 50).astype(np.int16)
+        for f in (_utils.nd_butterworth_weight,):
+            if hasattr(f, "cache_clear"):
+                f.cache_clear()
         try:
+            if cex.get("__history__"):
+                # a high-pass call with the same parameters first (shares the memoised weights)
+                if impl == "utils":
+                    _utils.highpass_filter(img, c, 2), _utils.highpass_filter_ft(img, c, 2)
             out = _utils.lowpass_filter(img, c, 2) if impl == "utils" else Backend().lowpass_filter(img, c, 2)
         except Exception as e:
             return True, {"raised": repr(e), "input_shape": list(shape), "cutoff": c, "impl": impl}
@@ -161,9 +180,11 @@ def sec_weights(rec, shapes=(), orders=(1, 2, 3), patches=None):
                                   replay=replay_weight(shape, order, True, impl), twin=False)
 
 
-def sec_filter(rec, shapes=(), patches=None):
-    """lowpass_filter / lowpass_filter_ft: identity range, what is transformed, output shape"""
-    L = _load(patches)
+def sec_filter(rec, shapes=(), int_input=False, history=False, patches=None):
+    """lowpass_filter / lowpass_filter_ft: identity range, what is transformed, output shape.
+    int_input: the image reports dtype int16 (symbolic integer voxels).  history: functools.lru_cache active and a high-pass call with the same
+    parameters is made first (it shares the memoised weights)"""
+    L = _load(patches, keep_cache=history)
     rec.encodes("acryo/_utils.py:lowpass_filter", "acryo/_utils.py:lowpass_filter_ft", "acryo/backend/_bandpass.py:lowpass_filter",
                 "acryo/backend/_bandpass.py:lowpass_filter_ft", "acryo/backend/_api.py:Backend.lowpass_filter", "acryo/backend/_api.py:Backend.lowpass_filter_ft",
                 "acryo/backend/_api.py:Backend.rfftn/irfftn/fftn")
@@ -175,20 +196,35 @@ def sec_filter(rec, shapes=(), patches=None):
     for shape in shapes:
         fft = FFTStub("opaque")
         impls = _impls(L, fft)
-        vox = {idx: real("v_" + "_".join(map(str, idx))) for idx in np.ndindex(tuple(shape))}
+        vox = {idx: (integer if int_input else real)("v_" + "_".join(map(str, idx))) for idx in np.ndindex(tuple(shape))}
         for impl, fns in impls.items():
             # ---- real-space variant -------------------------------------------------------
-            def run_lp():
-                fft.calls.clear()
-                img = SymArray(shape=tuple(shape))
+            def mkimg():
+                img = (IntImage if int_input else SymArray)(shape=tuple(shape))
                 for idx, v in vox.items():
                     img[idx] = v
+                return img
+
+            def prelude():
+                if history:
+                    for mod in list(L.values()):
+                        for f_ in list(vars(mod).values()):
+                            if hasattr(f_, "cache_clear"):
+                                f_.cache_clear()
+                    fns["hp"](mkimg(), cutoff, order)
+                    fns["hpft"](mkimg(), cutoff, order)
+
+            def run_lp():
+                prelude()
+                fft.calls.clear()
+                img = mkimg()
                 out = fns["lp"](img, cutoff, order)
                 return img, out, list(fft.calls)
 
             paths = explore(run_lp)
-            tag = f"lowpass[{impl},{shape}]"
-            rp = replay_shape(shape, impl)
+            tag = f"lowpass[{impl},{shape}{',int16' if int_input else ''}{',after-highpass' if history else ''}]"
+            rp0 = replay_shape(shape, impl)
+            rp = lambda cex, rp0=rp0: rp0({**cex, "__int__": int_input, "__history__": history})
             r3 = z3.Real("sqrt3")
             for i, p in enumerate(paths):
                 if not p.ok:
@@ -233,10 +269,9 @@ def sec_filter(rec, shapes=(), patches=None):
 
             # ---- Fourier-space variant ------------------------------------------------------
             def run_ft():
+                prelude()
                 fft.calls.clear()
-                img = SymArray(shape=tuple(shape))
-                for idx, v in vox.items():
-                    img[idx] = v
+                img = mkimg()
                 out = fns["lpft"](img, cutoff, order)
                 return img, out, list(fft.calls)
 
@@ -456,6 +491,8 @@ def sections(tier):
     chunk = 1 if quick(tier) else 8
     for i in range(0, len(fshapes), chunk):
         S.append((f"filter-{i // chunk}", "checks.c16", "sec_filter", {"shapes": fshapes[i:i + chunk]}))
+    S.append(("filter-int16", "checks.c16", "sec_filter", {"shapes": [(2, 3, 4), (3, 2, 3)], "int_input": True}))
+    S.append(("filter-after-highpass", "checks.c16", "sec_filter", {"shapes": [(2, 3, 4), (3, 2, 3)], "history": True}))
     return S
 
 
